@@ -209,6 +209,8 @@ class Evaluator:
         if name == "MakeVector":
             return np.array([np.asarray(self.ev(i), dtype=object).item() for i in ins], dtype=object)
         if name == "Join":
+            if isinstance(getattr(op, "axis", None), int):     # newer pytensor: the axis is a property of the op
+                return np.concatenate([np.asarray(self.ev(i), dtype=object) for i in ins], axis=op.axis)
             axis = int(np.asarray(self.ev(ins[0])).item())
             return np.concatenate([np.asarray(self.ev(i), dtype=object) for i in ins[1:]], axis=axis)
         if isinstance(op, CAReduce):
